@@ -796,7 +796,7 @@ def random_programs(tier, seed=0):
     scheduling points; every execution is conformance-checked against RE.tla and judged by the monitors"""
     rng = random.Random(7000 + seed)
     out = []
-    nprog = 20 if tier == "quick" else 120
+    nprog = 40 if tier == "quick" else 120
     for n in range(nprog):
         msgs = []
         staged = rng.random() < 0.4
@@ -871,7 +871,7 @@ def random_programs(tier, seed=0):
             raise RuntimeError(f"random program {name} failed in the harness: {b['error']}")
         out.append(base)
         npts = b["points"]
-        k = 4 if tier == "quick" else 10
+        k = 6 if tier == "quick" else 10
         for p in sorted(rng.sample(range(npts + 1), min(k, npts + 1))):
             out.append(with_inject(base, [{"at": p, "kind": "pause"}], ["resume"] * 4, f"pause@{p}|resume"))
             out.append(with_inject(base, [{"at": p, "kind": "suspend", "arg": "f1"}, {"at": p + 2, "kind": "release", "arg": "f1"},
